@@ -5,7 +5,8 @@
 //!             lines in every credential form through the real TCP gate
 //!             (`verif_gate::Gate::check`), `parse_command`, `dispatch_command`.
 //!   bypass    the same generator under `auth.bypass_auth = true`.
-//!   expiry    token lifetime 2 s, real waiting (cases run concurrently).
+//!   expiry    token lifetime 5 s under the scripted token clock (`verif::set_token_clock`):
+//!             requests at expires_at-1, expires_at, expires_at+1, after small steps and huge jumps.
 //!   ratelimit `auth.rate_limit_enabled = true`, 1 failed attempt / s / IP: same decisions.
 //!   witness   eight scripted scenarios: one minimal witness per finding class + controls.
 //!
@@ -13,7 +14,6 @@
 //!   mk id key roles | sp id et rw | dp id et | rk id | conn k | req k line parsed | tick d |
 //!   restart | dir mgr uid parsed          (strings hex, lists `+`-joined, `_` = empty list)
 //! Answer: one token per step (see `showOut` in lean/Drivers/C13.lean).
-mod crypto;
 mod scen;
 mod truth;
 mod world;
@@ -191,7 +191,8 @@ struct Opts {
     expiry: u64,
     allow_restart: bool,
     allow_flush: bool,
-    ticks: bool,
+    /// the token clock is scripted (expiry stream); otherwise the real clock is followed
+    scripted: bool,
 }
 
 fn api_name(e: &snel_db::engine::auth::AuthError) -> &'static str {
@@ -226,7 +227,10 @@ struct Sess<'a> {
     co: CaseOut,
     /// wall clock (s) at the start of the scenario; the model's clock follows the real one
     base_s: u64,
+    /// scripted token clock: `verif::set_token_clock(SCRIPT_BASE + truth.now)` before each gate call
+    scripted: bool,
 }
+const SCRIPT_BASE: u64 = 1_700_000_000;
 
 fn wall() -> std::time::Duration {
     std::time::SystemTime::now().duration_since(std::time::UNIX_EPOCH).unwrap()
@@ -243,12 +247,17 @@ impl<'a> Sess<'a> {
             names: vec![], name_types: HashMap::new(), accounts: vec![], toks: vec![], gates: HashMap::new(),
             co: CaseOut::default(),
             base_s: wall().as_secs(),
+            scripted: false,
         }
     }
     /// Brings the scenario clock (model + oracle) up to the real clock, which is what
     /// `generate_session_token` / `validate_session_token` read. Stays clear of second
     /// boundaries so that the gate call that follows reads the same second.
     async fn sync_clock(&mut self) {
+        if self.scripted {
+            snel_db::verif::set_token_clock(Some(SCRIPT_BASE + self.truth.now));
+            return;
+        }
         let frac = wall().subsec_millis();
         if frac > 900 {
             tokio::time::sleep(std::time::Duration::from_millis((1010 - frac) as u64)).await;
@@ -306,9 +315,13 @@ impl<'a> Sess<'a> {
         self.ops.push("restart".into());
         self.imp.push(".".into());
     }
-    /// Real waiting; the next request's `sync_clock` turns it into a `tick` of the model.
-    async fn wait_ms(&mut self, ms: u64) {
-        tokio::time::sleep(std::time::Duration::from_millis(ms)).await;
+    /// Scripted clock: `d` seconds pass (no real waiting).
+    fn advance(&mut self, d: u64) {
+        if d > 0 {
+            self.truth.now += d;
+            self.ops.push(format!("tick {d}"));
+            self.imp.push(".".into());
+        }
     }
     fn open_conn(&mut self, k: u64) {
         if !self.gates.contains_key(&k) {
@@ -467,7 +480,10 @@ async fn run_case(w: &World, seed: u64, stream: &str, i: u64, am0: Arc<AuthManag
     let tag = format!("{}x{}", seed % 100000, i);
     let has_mgr = o.bypass || !r.chance(1, 25);
     let mut s = Sess::new(w, i, am0, o.bypass, has_mgr, o.expiry);
+    s.scripted = o.scripted;
     let mut fresh = 0u64;
+    // after a clock step aimed at a token's expiry: use exactly that token next
+    let mut force_token: Option<usize> = None;
 
     // ---- accounts through the API (what bootstrap / an operator does)
     let mut ids = scen::gen_ids(&mut r);
@@ -515,11 +531,25 @@ async fn run_case(w: &World, seed: u64, stream: &str, i: u64, am0: Arc<AuthManag
             s.co.tallies.push("restart".into());
             continue;
         }
-        if choice < 14 && o.ticks {
-            // token lifetime is 2 s: waits below, around and above it
-            let ms = *r.pick(&[300u64, 700, 1000, 1400, 2000, 2300, 3100]);
-            s.wait_ms(ms).await;
-            s.co.tallies.push("wait".into());
+        if choice < 22 && o.scripted {
+            // clock steps: aimed at a token's last second (expires_at-1, expires_at, expires_at+1),
+            // small steps, huge jumps
+            let mode = r.below(10);
+            if mode < 6 && !s.truth.tokens.is_empty() {
+                let ti = r.below(s.truth.tokens.len() as u64) as usize;
+                let delta = r.below(3); // 0: expires_at-1, 1: expires_at, 2: expires_at+1
+                let target = s.truth.tokens[ti].minted_at + o.expiry + delta - 1;
+                if target >= s.truth.now {
+                    let d = target - s.truth.now;
+                    s.advance(d);
+                    force_token = Some(ti);
+                    s.co.tallies.push(format!("clock=expires_at{:+}", delta as i64 - 1));
+                    continue;
+                }
+            }
+            let d = *r.pick(&[1u64, 1, 2, 3, o.expiry, 1000, 86_400, 4_000_000_000]);
+            s.advance(d);
+            s.co.tallies.push(if d > 100 { "clock=jump".into() } else { "clock=step".to_string() });
             continue;
         }
         // ---- a command text
@@ -560,13 +590,12 @@ async fn run_case(w: &World, seed: u64, stream: &str, i: u64, am0: Arc<AuthManag
             };
             scen::gen_command(&mut r, &ctx)
         };
-        if (label == "FLUSH" || label == "REMEMBER" || label == "SHOW") && !o.allow_flush {
-            // the expiry stream runs cases concurrently: no shard-wide flush, no shared catalog file
+        if label == "FLUSH" && !o.allow_flush {
             cmd = Two::lit("PING");
         }
         s.co.tallies.push(format!("cmd={label}"));
 
-        if choice < 16 {
+        if choice < 16 && force_token.is_none() {
             // direct dispatch (no gate): the handlers' own 401 / no-manager branches
             let mgr = !r.chance(1, 4);
             let uid: Option<String> = match r.below(4) {
@@ -593,7 +622,7 @@ async fn run_case(w: &World, seed: u64, stream: &str, i: u64, am0: Arc<AuthManag
             r.pick(&s.accounts).clone()
         };
         let other = r.pick(&s.accounts).clone();
-        let form = r.below(100);
+        let form = if force_token.is_some() { 20 } else { r.below(100) };
         let mut line = Two::default();
         let form_label: &'static str;
         if form < 14 {
@@ -617,13 +646,14 @@ async fn run_case(w: &World, seed: u64, stream: &str, i: u64, am0: Arc<AuthManag
                 line.push2(&t);
                 s.co.tallies.push("auth+token".into());
             }
-        } else if form < (if o.ticks { 62 } else { 34 }) && !s.toks.is_empty() {
+        } else if form < (if o.scripted { 50 } else { 34 }) && !s.toks.is_empty() {
             form_label = "TOKEN";
-            let ti = r.below(s.toks.len() as u64) as usize;
+            let forced = force_token.take();
+            let ti = forced.unwrap_or_else(|| r.below(s.toks.len() as u64) as usize);
             let t = s.toks[ti].clone();
             let mut c = cmd.clone();
             // sometimes an (unneeded, possibly bad) signature prefix as well
-            if r.chance(1, 6) {
+            if forced.is_none() && r.chance(1, 6) {
                 let mut l2 = Two::lit(&format!("{}:", acct.id));
                 l2.push2(&scen::sig(&acct.key, &cmd));
                 l2.push(":");
@@ -631,7 +661,7 @@ async fn run_case(w: &World, seed: u64, stream: &str, i: u64, am0: Arc<AuthManag
                 c = l2;
             }
             line.push2(&c);
-            let tv = if o.ticks && r.chance(1, 2) { 11 } else { r.below(12) };
+            let tv = if forced.is_some() || (o.scripted && r.chance(1, 2)) { 11 } else { r.below(12) };
             let tl = match tv {
                 0 => { line.push(" token "); line.push2(&t); "lowercase-marker" }
                 1 => { line.push(" TOKEN "); line.push(&scen::rand_hex(&mut r, 64)); "unknown" }
@@ -647,8 +677,16 @@ async fn run_case(w: &World, seed: u64, stream: &str, i: u64, am0: Arc<AuthManag
             s.co.tallies.push(format!("token={tl}"));
             if tv >= 9 || tv == 6 || tv == 7 {
                 let tt = &s.truth.tokens[ti];
-                let age = (wall().as_secs() - s.base_s).saturating_sub(tt.minted_at);
-                let state = if !tt.alive { "dead(revoked/restart)".to_string() } else if age > o.expiry { "expired".to_string() } else { format!("live(age {age}s)") };
+                let age = if o.scripted { s.truth.now - tt.minted_at } else { (wall().as_secs() - s.base_s).saturating_sub(tt.minted_at) };
+                let state = if !tt.alive {
+                    "dead(revoked/restart)".to_string()
+                } else if age > o.expiry {
+                    (if age == o.expiry + 1 { "expired(expires_at+1)" } else { "expired(later)" }).to_string()
+                } else if age + 1 >= o.expiry {
+                    format!("live(expires_at{:+})", age as i64 - o.expiry as i64)
+                } else {
+                    "live(early)".to_string()
+                };
                 s.co.tallies.push(format!("well-formed-token={state}"));
             }
         } else if form < 60 && bound.is_some() {
@@ -865,7 +903,7 @@ fn run_chunked(a: &snel_harness::out::Args) -> ! {
     let exe = std::env::current_exe().unwrap();
     std::fs::create_dir_all(&a.out).unwrap();
     let chunks: Vec<(u64, u64)> = (0..a.cases.div_ceil(CHUNK)).map(|k| (k * CHUNK, ((k + 1) * CHUNK).min(a.cases))).collect();
-    let par = if a.stream == "expiry" { 3 } else { 6 };
+    let par = 6;
     let mut results: Vec<Option<std::process::ExitStatus>> = vec![None; chunks.len()];
     for wave in (0..chunks.len()).collect::<Vec<_>>().chunks(par) {
         let kids: Vec<_> = wave.iter().map(|&k| {
@@ -912,7 +950,9 @@ fn run_chunked(a: &snel_harness::out::Args) -> ! {
 
 fn main() {
     let a = parse_args();
-    crypto::self_test();
+    // the signing helper is the repo's own (verif::hmac_hex); RFC 4231 test case 2 as a sanity check
+    assert_eq!(snel_db::verif::hmac_hex(b"Jefe", b"what do ya want for nothing?"),
+        "5bdcc146bf60754e6a042426089575c75a003f089d2739839dec58b964ec3843");
     let range: Option<(u64, u64)> = match a.extra.as_slice() {
         [f, lo, hi] if f == "--range" => Some((lo.parse().unwrap(), hi.parse().unwrap())),
         [] => None,
@@ -925,7 +965,7 @@ fn main() {
     let (bypass, expiry) = match a.stream.as_str() {
         "scenario" => (false, 300),
         "bypass" => (true, 300),
-        "expiry" => (false, 2),
+        "expiry" => (false, 5),
         "witness" => (false, 300),
         // per-IP rate limiting of failed attempts switched on (1/s): the decision must not change
         "ratelimit" => (false, 300),
@@ -947,14 +987,14 @@ fn main() {
         let opts = Arc::new(Opts {
             bypass,
             expiry,
-            allow_restart: stream_name != "expiry",
-            allow_flush: stream_name != "expiry",
-            ticks: stream_name == "expiry",
+            allow_restart: true,
+            allow_flush: true,
+            scripted: stream_name == "expiry",
         });
         let ncases = if stream_name == "witness" { WITNESSES } else { a.cases };
         let (lo, hi) = range.unwrap_or((0, ncases));
         let todo: Vec<u64> = (lo..hi.min(ncases)).filter(|i| a.only.is_none_or(|o| o == *i)).collect();
-        let chunk = if stream_name == "expiry" { 48 } else { 1 };
+        let chunk = 1; // cases run one after the other (the scripted token clock is process-wide)
         for group in todo.chunks(chunk) {
             // AuthManagers are created one after the other (their WAL dir comes from an env var)
             let ams: Vec<Arc<AuthManager>> = group.iter().map(|i| w.fresh_auth(*i)).collect();
